@@ -417,6 +417,26 @@ pub fn run(tier: Tier, seed: u64) -> i32 {
         });
         total.merge(st);
     }
+    // curated programs under every set of at most two deviations: variables and a loop counter spelt like
+    // the built-in functions next to calls of those functions (a name is a call when a parenthesis
+    // follows, however much blank space stands between them), literals with hexadecimal letters
+    {
+        let l = |n: i64| Entry::Lit(n, Radix::Dec);
+        let pe = |e: Expr| Entry::Paren(e);
+        let progs: Vec<Vec<Stmt>> = vec![
+            vec![Stmt::Let("ite".into(), lit(1)), Stmt::Row(vec![pe(ite(lit(1), lit(2), lit(3))), pe(name("ite")), Entry::X]), Stmt::Row(vec![pe(ite(name("ite"), Expr::Lit(0xAB, Radix::Hex), lit(3))), l(1), Entry::X])],
+            vec![Stmt::Loop("random".into(), lit(2), vec![Stmt::Row(vec![pe(name("random")), pe(ite(name("random"), lit(7), lit(8))), Entry::X])]), Stmt::Let("signExt".into(), Expr::Lit(0xbeef, Radix::Hex)), Stmt::Row(vec![pe(bin(BinOp::And, name("signExt"), Expr::Lit(0xF0, Radix::Hex))), l(0), Entry::X])],
+        ];
+        let st = par_range("curated programs (names spelt like built-in functions next to calls; hexadecimal literals) x every set of <= 2 deviations", progs.len() as u64, &deadline, |u, st| {
+            let prog = Program { header: vec!["A".into(), "B".into(), "Q".into()], body: progs[u as usize].clone() };
+            let ls = lines(&prog);
+            let devs = singles(&ls);
+            let layouts = up_to(&devs, 2);
+            st.witness("curated_program");
+            examine(st, (2 << 40) + u, 9, 0, &ls, &layouts, &sigs, &script);
+        });
+        total.merge(st);
+    }
     // long programs (more lines than any line is long): deviations applied to one line, to every
     // line at once, and CRLF throughout
     {
